@@ -105,7 +105,18 @@ fn build(label: &str, enc: [Enc; 3], vault0: u64) -> Wd {
     two.push(O::SetEmissions { index: 0, rate: RATE_SMALL, v2: true });
     two.push(O::SetEmissions { index: 1, rate: RATE_BIG, v2: false });
     two.push(O::Base(Op::Clock(1)));
-    let prefixes = vec![("funded-no-reward".to_string(), l.clone(), fund), ("emitting".to_string(), l.clone(), emitting), ("two-rewards".to_string(), l.clone(), two)];
+    // more is owed than the vault holds (the vault holds exactly one day of emissions): collect pays min(owed, vault)
+    let mut over = emitting.clone();
+    over.push(O::Base(Op::Clock(86_400)));
+    over.push(O::Base(Op::Update { pos: 0 }));
+    over.push(O::Base(Op::Clock(86_400)));
+    over.push(O::Base(Op::Update { pos: 1 }));
+    let prefixes = vec![
+        ("funded-no-reward".to_string(), l.clone(), fund),
+        ("emitting".to_string(), l.clone(), emitting),
+        ("two-rewards".to_string(), l.clone(), two),
+        ("over-owed".to_string(), l.clone(), over),
+    ];
     let _ = vault0;
     Wd { name: label.into(), w, rmint, rvault, rwallet, prefixes }
 }
@@ -482,7 +493,7 @@ pub fn run(ctx: &Ctx) -> Report {
             }
         };
         let roots: Vec<St> = named.iter().map(|x| x.1.clone()).collect();
-        let lim = Limits { max_depth: ctx.pick(3, 6), budget_s: share.min(ctx.left().max(1.0)), max_states: 30_000_000 };
+        let lim = Limits { max_depth: ctx.pick(4, 7), budget_s: share.min(ctx.left().max(1.0)), max_states: 30_000_000 };
         let (stats, found) = explore::explore(&m, &roots, &lim);
         if let Some(f) = found {
             r.violation(
